@@ -825,6 +825,9 @@ func (c *Conn) advanceFrame() (int, error) {
 		}
 
 		if err := c.setReadRemaining(int64(binary.BigEndian.Uint64(p))); err != nil {
+			// a length with the top bit set is beyond every limit: same
+			// treatment as the limit check below
+			_ = c.CloseWithError(CloseMessageTooBig, "")
 			return noFrame, err
 		}
 	}
@@ -841,9 +844,9 @@ func (c *Conn) advanceFrame() (int, error) {
 		}
 
 		if c.readLimit > 0 && c.readLength > c.readLimit {
-			if err := c.CloseWithError(CloseMessageTooBig, ""); err != nil {
-				return noFrame, err
-			}
+			// the failure to tell the peer must not replace the failure that
+			// is reported to the application
+			_ = c.CloseWithError(CloseMessageTooBig, "")
 			return noFrame, ErrReadLimit
 		}
 
@@ -905,6 +908,10 @@ type messageReader struct{ c *Conn }
 func (r *messageReader) Read(b []byte) (int, error) {
 	c := r.c
 	if c.messageReader != r {
+		if c.readErr != nil && c.readErr != io.EOF {
+			// the connection has failed: not a clean end of this message
+			return 0, c.readErr
+		}
 		return 0, io.EOF
 	}
 
